@@ -228,11 +228,12 @@ def run(ctx, rep):
     cg.rule_literal_escape(rep, crate)      # justifies the `expect("ASCII is always valid UTF-8")` of the inventory: the guard is byte <= 127
     rule_variants(rep, crate)
     rule_root_retained(rep, crate)
+    cg.rule_dfa_heuristics(rep, crate)     # what regex-automata cannot build exactly stays a reported build error (no approximate automaton)
     if ctx.tier == 'thorough':
         crate2 = ctx.mir('codegen-sm')['logos_codegen']
         rep2_before = len(rep.rules['M-C19a']['violations'])
         rule_inventory(rep, crate2)
-    cg.cg_controls(rep, ctx, [('M-C19d', rule_variants)])
+    cg.cg_controls(rep, ctx, [('M-C19d', rule_variants), ('M-C01b', cg.rule_dfa_heuristics)])
     from props import gen
     gen.rule_must_reject(ctx, rep, gen.configs(ctx), ['empty_match', 'empty_callback', 'greedy_dot', 'greedy_dot_hidden', 'greedy_dot_explicit_false', 'undefined_subpattern', 'variants', 'look_behind', 'non_utf8_in_str_mode'], floor=34)
     rep.trusted += ['rustc nightly MIR and callee resolution', 'engines/mirfacts', 'the reasons in lib/props/c19_table.py were established by reading the code']
